@@ -34,6 +34,7 @@
 #include <sys/mman.h>
 #include <unistd.h>
 
+#include <algorithm>
 #include <new>
 
 #include "alloc_monitor.h"
@@ -598,4 +599,108 @@ VH_OP(tenc) {
   std::string okt, hx;
   ss >> okt >> hx;
   return "ok " + hx + " " + (g_tamper.hit ? "1" : "0");
+}
+
+// ------------------------------------------------------------------ legacy (bitstream 2.0 .. 2.2) kd-tree point clouds
+// The current encoder only writes bitstream 2.3; the legacy branches of KdTreeAttributesDecoder (integer method with a
+// DynamicIntegerPointsKdTreeDecoder payload, float "quantization" method with a FloatPointsTree payload) are reached
+// only by streams assembled by hand: header + one attribute descriptor + method / level / point count + the payload
+// produced by the library's own tree encoders.
+//   legacykd int   <minor 0..2> <level 0..6> <dim 1..> <bit_length> <coordsCSV>   one uint32 x dim POSITION attribute
+//   legacykd float <minor 0..2> <quantization bits> <float32 bit patterns CSV, 3 per point>
+//   -> ok <hex>     (the stream decodes on this tree to the same number of points; int: to the same point multiset)
+//   -> selfcheck-failed <hex> | err-…
+#include "draco/compression/point_cloud/algorithms/float_points_tree_encoder.h"
+
+namespace {
+void put_u32(std::vector<uint8_t> *s, uint32_t v) {
+  for (int i = 0; i < 4; ++i) s->push_back(static_cast<uint8_t>(v >> (8 * i)));
+}
+std::vector<uint8_t> legacy_kd_head(int minor, uint32_t np, int data_type, int ncomp) {
+  std::vector<uint8_t> s = {'D', 'R', 'A', 'C', 'O', 2, static_cast<uint8_t>(minor), 0, 1, 0, 0};
+  put_u32(&s, np);
+  s.push_back(1);  // attributes decoders
+  s.push_back(1);  // attributes (varint)
+  s.push_back(0);  // POSITION
+  s.push_back(static_cast<uint8_t>(data_type));
+  s.push_back(static_cast<uint8_t>(ncomp));
+  s.push_back(0);  // normalized
+  s.push_back(0);  // unique id (varint)
+  return s;
+}
+}  // namespace
+
+VH_OP(legacykd) {
+  if (a.size() < 5) return "bad-op";
+  const int minor = atoi(a[2].c_str());
+  if (minor < 0 || minor > 2) return "bad-op";
+  std::vector<uint8_t> s;
+  uint32_t np = 0;
+  std::vector<uint32_t> want;
+  uint32_t dim = 3;
+  if (a[1] == "int") {
+    if (a.size() < 7) return "bad-op";
+    const int level = atoi(a[3].c_str());
+    dim = static_cast<uint32_t>(vh::u64(a[4]));
+    auto coords = vh::ilist(a[6]);
+    if (dim == 0 || dim > 255 || coords.size() % dim) return "bad-op";
+    np = static_cast<uint32_t>(coords.size() / dim);
+    for (auto c : coords) want.push_back(static_cast<uint32_t>(c));
+    auto it = vh::registry().find("kdenc");
+    if (it == vh::registry().end()) return "err-no-kdenc";
+    const std::string payload = it->second({"kdenc", a[3], a[4], a[5], a[6]});
+    s = legacy_kd_head(minor, np, DT_UINT32, static_cast<int>(dim));
+    s.push_back(1);  // kKdTreeIntegerEncoding
+    s.push_back(static_cast<uint8_t>(level));
+    put_u32(&s, np);
+    auto pb = vh::unhex(payload);
+    s.insert(s.end(), pb.begin(), pb.end());
+  } else if (a[1] == "float") {
+    const int qbits = atoi(a[3].c_str());
+    auto bits = vh::ilist(a[4]);
+    if (bits.size() % 3) return "bad-op";
+    np = static_cast<uint32_t>(bits.size() / 3);
+    std::vector<Point3f> pts;
+    for (size_t i = 0; i + 2 < bits.size(); i += 3) {
+      float f[3];
+      for (int j = 0; j < 3; ++j) {
+        uint32_t b = static_cast<uint32_t>(bits[i + j]);
+        memcpy(&f[j], &b, 4);
+      }
+      pts.push_back(Point3f(f[0], f[1], f[2]));
+    }
+    FloatPointsTreeEncoder enc(KDTREE, static_cast<uint32_t>(qbits), 6);
+    if (!enc.EncodePointCloud(pts.begin(), pts.end())) return "err-encode";
+    s = legacy_kd_head(minor, np, DT_FLOAT32, 3);
+    s.push_back(0);  // kKdTreeQuantizationEncoding
+    s.push_back(6);  // compression level (not used by the decoder)
+    put_u32(&s, np);
+    s.insert(s.end(), enc.buffer()->data(), enc.buffer()->data() + enc.buffer()->size());
+  } else {
+    return "bad-op";
+  }
+  // self check on this tree
+  DecoderBuffer b;
+  b.Init(reinterpret_cast<const char *>(s.data()), s.size());
+  Decoder dec;
+  auto r = dec.DecodePointCloudFromBuffer(&b);
+  bool ok = r.ok();
+  if (ok) {
+    std::unique_ptr<PointCloud> pc = std::move(r).value();
+    ok = pc->num_points() == np && pc->num_attributes() == 1 && validity(*pc, nullptr).empty();
+    if (ok && a[1] == "int") {
+      std::vector<std::vector<uint32_t>> got, exp;
+      const PointAttribute *att = pc->attribute(0);
+      for (uint32_t p = 0; p < np; ++p) {
+        std::vector<uint32_t> v(dim);
+        att->GetMappedValue(PointIndex(p), v.data());
+        got.push_back(v);
+        exp.push_back(std::vector<uint32_t>(want.begin() + p * dim, want.begin() + (p + 1) * dim));
+      }
+      std::sort(got.begin(), got.end());
+      std::sort(exp.begin(), exp.end());
+      ok = got == exp;
+    }
+  }
+  return std::string(ok ? "ok " : "selfcheck-failed ") + vh::hex(s);
 }
